@@ -41,9 +41,10 @@ structure HQuirks where
   staleEvalParent : Bool
   deriving DecidableEq, Repr
 
-/-- the code as it is -/
+/-- the code as found (before fixes f749997 and 97ba516 in /repo) -/
 def HQuirks.today : HQuirks := ⟨true, true, true⟩
-/-- after the two proposed patches (interleaved evaluations of one object still interfere) -/
+/-- the code as it is: after the two patches, applied as f749997 / 97ba516 (interleaved evaluations of one object still
+interfere: F-C03-5) -/
 def HQuirks.repaired : HQuirks := ⟨false, true, false⟩
 /-- evaluation-local node state as well -/
 def HQuirks.ideal : HQuirks := ⟨false, false, false⟩
